@@ -442,6 +442,13 @@ def wrapper_rules(m, run, method, slot):
         run.ob('WR1.catches-only-rejection', fi.key, okh, 'only GeomdlException (the rejection) is caught' if okh else
                'handler catches %s: programming errors inside the operation are swallowed' % ([norm(h.type) if h.type else 'everything' for h in trys[0].handlers] if trys else 'nothing'),
                site(fi))
+        # every normally returning path goes through the delegation: a wrapper has no reason of its own to do nothing
+        from .cfg import CFG as _CFG
+        cfg_ = _CFG(fi.node)
+        always = cfg_.must_pass(lambda nd: any(x is c for x in ast.walk(nd.ast)))
+        run.ob('WR1.always-delegates', fi.key, always, 'every normal path reaches the operation' if always else
+               'a path returns without calling the operation: the request is silently ignored for some argument combinations '
+               '(e.g. when the count of the *other* direction is 0)', site(fi, c))
         # check_num forwarded
         kwv = next((k.value for k in c.keywords if k.arg == 'check_num'), None)
         run.ob('WR1.wrapper-delegates', fi.key + ' :: check_num', kwv is not None, 'check_num forwarded as `%s`' % norm(kwv), site(fi, c))
